@@ -24,6 +24,8 @@
 //!                                           actions of (M, task, tag); `join`: registered with try_join
 //!               | shutdown | restart_in <d> | restart_at <t>
 //!               | panic | log <n>
+//!               | rpanic                    panics iff `Module::reset` of this module was called before (a module that
+//!                                           cannot come up again); logged like `panic`
 //!   init <M> <id> <time>                    message injected before the run (handle_message_on)
 //! Transcript: the same lines (link lines annotated ` -> tx=<measured>`), then
 //!   obs <M> <kind> <a> <b> <ns>             kind = msg id serial | start stage - | end - - | reset - - |
@@ -55,6 +57,7 @@ pub(crate) enum Action {
     RestartIn(u64),
     RestartAt(u64),
     Panic,
+    Rpanic,
     Log(u64),
 }
 
@@ -66,6 +69,8 @@ pub(crate) struct ModSpec {
     catch: bool,
     acts: HashMap<(String, u64), Vec<Action>>,
     links: Vec<String>,
+    /// number of `Module::reset` calls of the running simulation
+    resets: Arc<std::sync::atomic::AtomicUsize>,
 }
 
 #[derive(Clone, Debug)]
@@ -106,6 +111,7 @@ fn parse_action(t: &[&str], mods: &[String]) -> Option<Action> {
         ["restart_in", d] => Some(Action::RestartIn(d.parse().ok()?)),
         ["restart_at", t] => Some(Action::RestartAt(t.parse().ok()?)),
         ["panic"] => Some(Action::Panic),
+        ["rpanic"] => Some(Action::Rpanic),
         ["log", n] => Some(Action::Log(n.parse().ok()?)),
         _ => None,
     }
@@ -267,6 +273,12 @@ fn run_actions(spec: &Arc<ModSpec>, hook: &str, key: u64, in_task: bool, joined:
                 log(&spec.tag, "pan", Some(in_task as u64), Some(joined as u64));
                 panic!("scripted panic")
             }
+            Action::Rpanic => {
+                if spec.resets.load(Ordering::SeqCst) > 0 {
+                    log(&spec.tag, "pan", Some(in_task as u64), Some(joined as u64));
+                    panic!("scripted panic of a restarted module")
+                }
+            }
             Action::Log(n) => log(&spec.tag, "log", Some(*n), None),
         }
     }
@@ -278,6 +290,7 @@ struct Scripted {
 
 impl Module for Scripted {
     fn reset(&mut self) {
+        self.spec.resets.fetch_add(1, Ordering::SeqCst);
         log(&self.spec.tag, "reset", None, None);
     }
     fn num_sim_start_stages(&self) -> usize {
@@ -307,6 +320,7 @@ fn simulate(sc: &Script) -> String {
     }
     let mut sim = Sim::new(());
     for m in &sc.mods {
+        m.resets.store(0, Ordering::SeqCst);
         sim.node(m.tag.as_str(), Scripted { spec: Arc::new(m.clone()) });
     }
     for l in &sc.links {
@@ -469,7 +483,10 @@ pub(crate) fn gen_with(seed: u64, count: usize, thorough: bool, panics: u64) -> 
             let panic_at = if panics > 0 && r.below(20) < panics { Some(r.below(len + 1)) } else { None };
             for i in 0..=len {
                 if panic_at == Some(i) {
-                    writeln!(out, "act M{m} {hook} {key} panic").unwrap();
+                    // `rpanic`: only a module that has been reset before panics here (start stages of
+                    // a restart, handlers / tasks of a later incarnation)
+                    let word = if r.chance(1, if hook == "start" { 2 } else { 4 }) { "rpanic" } else { "panic" };
+                    writeln!(out, "act M{m} {hook} {key} {word}").unwrap();
                 }
                 if i == len {
                     break;
